@@ -1,5 +1,6 @@
 import CDVProofs.EncodeRead
 import CDVProofs.EncTables
+import CDVProofs.EncodeLines
 import CDVProofs.Props.C09
 /-! # C03 — encoding any well-formed CodeData yields code that says what the data says
 
@@ -53,6 +54,24 @@ theorem C03_reads_back (is : List Instr) (as : List Int) (hl : is.length = as.le
   intro j i a hi ha
   rw [List.getElem?_map, rawsOf_get is as 0 j i a hl hi ha]
   simp [RawI.proj]
+
+/-- **Each instruction carries the given line or no line — 3.10.**  For every non-empty instruction list and operands,
+    whatever widths the instructions end up with: the `co_linetable` that `to_code()` writes from the per-code-unit
+    lines recorded while assembling (data without a trailing extra line entry) makes CPython's reader assign to the first
+    code unit of the `j`-th instruction exactly that instruction's `line_number`, and no line where it is `None`. -/
+theorem C03_lines_310 (is : List Instr) (as : List Int) (fln : Int) (extra : List (Nat × List Int)) (hl : is.length = as.length)
+    (hne : is ≠ []) :
+    ∃ table, LT.fromLineMapping true ⟨(emit is as 0).2.1.map (fun p => (p.1, p.2.map (· - fln))), extra⟩ = .ok table ∧
+      ∀ (j : Nat) (i : Instr), is[j]? = some i → Spec.lineOf .v310 table fln (2 * psum (szs is as) 0 j) = i.line :=
+  encode_lines_310 is as fln extra hl hne
+
+/-- **… and `co_lnotab` (3.7-3.9)**, where every instruction has to have a line (`None` cannot be written before 3.10:
+    known finding `C03:none-line-before-3.10`), with any zero-width extra entries recorded as overrides. -/
+theorem C03_lines_lnotab (v : Ver) (hv : v.is310 = false) (is : List Instr) (as : List Int) (fln : Int) (extra : List (Nat × List Int))
+    (hl : is.length = as.length) (hsome : ∀ i ∈ is, i.line.isSome) :
+    ∃ table, LT.fromLineMapping false ⟨(emit is as 0).2.1.map (fun p => (p.1, p.2.map (· - fln))), extra⟩ = .ok table ∧
+      ∀ (j : Nat) (i : Instr), is[j]? = some i → Spec.lineOf v table fln (2 * psum (szs is as) 0 j) = i.line :=
+  encode_lines_lnotab v hv is as fln extra hl hsome
 
 /-- operands in C-int range are always written in a width that reads back (no override needed) -/
 theorem C03_default_width_fits (a : Int) (h1 : -(2 ^ 31) ≤ a) (h2 : a < 2 ^ 31) : Fits a (sizeOfI none a) :=
